@@ -5,10 +5,11 @@ import CG.Drv.C09
 import CG.Drv.C11
 import CG.Drv.C14
 import CG.Drv.C15
+import CG.Drv.C17
 import CG.Drv.C19
 import CG.Drv.C20
 /-! GENERATED from the driver modules present in CG/Drv. Do not edit. -/
 namespace CG.Drv
 def allHandlers : List (String → List String → Option String) :=
-  [C01.handle, C04.handle, C07.handle, C09.handle, C11.handle, C14.handle, C15.handle, C19.handle, C20.handle]
+  [C01.handle, C04.handle, C07.handle, C09.handle, C11.handle, C14.handle, C15.handle, C17.handle, C19.handle, C20.handle]
 end CG.Drv
